@@ -36,7 +36,7 @@ mod verif_c07_ais {
         }
     }
 
-    //@ob id=C07.ais.slices props=C07,C01 tier=quick kind=harness fns=adsb/ais.rs:ais draw=frame28
+    //@ob id=C07.ais.slices props=C07,C01 tier=quick kind=harness fns=adsb/ais.rs:ais draw=frame28 replay=callsign
     //@region all 112-bit frames (all 2^48 character fields): the character decoder is asked about exactly the eight 6-bit slices of bits 41-88, in order, and the eight results appear in that order
     #[kani::proof]
     #[kani::unwind(34)]
